@@ -1,5 +1,6 @@
 import sys, time, json, os
-sys.path.insert(0,'/verif')
+HERE=os.path.dirname(os.path.abspath(__file__))
+sys.path.insert(0,HERE)
 sys.setrecursionlimit(20000)
 from mirsym import engine
 h=sys.argv[1]; params=[int(x) for x in sys.argv[2:] if not x.startswith('--')]
@@ -7,8 +8,8 @@ opts={'models_for_ok':False}
 for x in sys.argv[2:]:
     if x.startswith('--'):
         k,v=x[2:].split('=') ; opts[k]=json.loads(v)
-if os.environ.get('NODUMP') and os.path.exists('/verif/.cache/melda.mir'):
-    mirs={c:open('/verif/.cache/%s.mir'%c).read() for c in ('melda','yavomrs','verif_harness')}
+if os.environ.get('NODUMP') and os.path.exists(HERE+'/.cache/melda.mir'):
+    mirs={c:open(HERE+'/.cache/%s.mir'%c).read() for c in ('melda','yavomrs','verif_harness')}
 else:
     mirs=engine.dump_mir()
 prog=engine.load_program(mirs)
